@@ -205,5 +205,5 @@ fn run_n<const N: usize>(case: &Case) -> Outcome {
 }
 
 pub fn parts() -> Vec<Box<dyn DynPart>> {
-    vec![Box::new(Gen::new(C03, 1_000_000, 60_000_000))]
+    vec![Box::new(Gen::new(C03, 3_000_000, 300_000_000))]
 }
